@@ -1,4 +1,4 @@
-import MgpuProofs.C07DispWit
+import MgpuProofs.C07Sys
 set_option linter.unusedVariables false
 set_option linter.unusedSimpArgs false
 /-! # C07 — property theorems, third layer: the register writes that do not go through the operand methods
@@ -194,6 +194,30 @@ theorem timing_fresh_wavefront_state (ops : List CUOp) (ns nv simd soff voff : N
     fun acc hacc => same_answers_after_dispatch _ ns nv simd soff voff d hA hC h2 hv acc hacc⟩
 
 example : CUOkAll blankCU (demoLife ++ [.map 16 4 0 0 0 dW]) ∧ 4 ≤ 256 := ⟨demoLife_ok, by decide⟩
+
+/-- **Allocator and compute unit running together: every reachable state satisfies `Alloc` and `Clean`.**
+`Sys` (MgpuProofs/C07Sys.lean) couples the resource allocator (`C09.reserve` / `C09.free`, shipped compute
+unit) with one compute unit's register files: a mapped work-group is reserved and, when that succeeds,
+every wavefront gets `wrapWG`'s new record and `DispatchWf` with the location the allocator chose;
+resident wavefronts access their registers; a finished work-group's wavefronts retire
+(`resetRegisterValue`) and its resources are freed — in any order, any number of work-groups, windows
+reused. For every such history (work-groups with ≥ 1 wavefront, ≤ 102 SGPRs, ABI registers inside the
+declared counts; supported accesses): the compute unit satisfies `Alloc` (hence every access sequence
+refines the abstract register map) and `Clean` (hence every later wavefront starts from `freshMap`), and
+the records of the live wavefronts carry exactly the allocator's layouts. No hypothesis connects the
+two sides: the connection IS the model of `DispatchWf`. -/
+theorem allocator_and_cu_alloc_clean (cu0 : C09.CU) (h0 : shippedCU = some cu0) (ops : List SysOp) (s : Sys)
+    (hok : SysOkAll (Sys.init cu0) ops) (hrun : (Sys.init cu0).run ops = some s) :
+    Alloc s.t ∧ Clean s.t ∧ s.liveLayouts = (wfsOfCU s.cu).map TWf.layout ∧
+    s.live.map (·.1) = s.cu.resident.map (·.1) :=
+  sys_alloc_clean cu0 h0 ops s hok hrun
+
+/-- a work-group with two wavefronts is mapped and finishes, a second one is mapped -/
+def demoSys : List SysOp :=
+  [.mapWG 1 ⟨2, 16, 4, 0⟩ (fun _ => dW), .finish 1, .mapWG 2 ⟨1, 16, 4, 0⟩ (fun _ => dW)]
+
+example (cu0 : C09.CU) : SysOkAll (Sys.init cu0) demoSys :=
+  ⟨⟨by decide, by decide, fun _ => dW_fits⟩, fun _ _ => ⟨trivial, fun _ _ => ⟨⟨by decide, by decide, fun _ => dW_fits⟩, fun _ _ => trivial⟩⟩⟩
 
 /-! ## hypotheses of the earlier layers that follow from reachability -/
 
